@@ -8,9 +8,14 @@ from ..spec import grammar as S
 from ..mon.client import call
 
 ID = "C01"
+
+
+class HarnessNote(Exception):
+    pass
+
 PROBES = ("raise", "lines")
 MARKERS = ["# INVALID", "GFAPY_virtual_line", "line_created_by_gfapy", "?record_type?"]
-ENTRIES = ["str", "strnl", "list", "lf", "crlf"]
+ENTRIES = ["str", "strnl", "list", "lf", "crlf", "readfile", "progress", "lineobjs", "addline"]
 _tmp = None
 
 
@@ -29,7 +34,12 @@ def cases(rng, tier, shard, nshards):
     while True:
         version = rng.choice(["gfa1", "gfa2"])
         canonical = rng.random() < 0.6
-        d = G.gen_doc(rng, version=version, canonical=canonical)
+        dialect = "standard"
+        if rng.random() < 0.12:
+            version, dialect = "gfa1", "rgfa"
+            d = G.gen_rgfa(rng, canonical=canonical)
+        else:
+            d = G.gen_doc(rng, version=version, canonical=canonical)
         lines = d.lines()
         both = False
         if version == "gfa1" and rng.random() < 0.35:
@@ -48,16 +58,69 @@ def cases(rng, tier, shard, nshards):
         cfgs = [(v, ev, e) for v in (0, 1, 2, 3) for ev in (False, True) for e in ENTRIES]
         rng.shuffle(cfgs)
         for (vl, ev, entry) in cfgs[:rng.choice([3, 6, 40])]:
-            yield {"version": version, "lines": lines, "vlevel": vl, "explicit": ev, "entry": entry,
-                   "canonical": canonical}
+            c = {"version": version, "lines": lines, "vlevel": vl, "explicit": ev, "entry": entry,
+                 "canonical": canonical}
+            if dialect != "standard":
+                c["dialect"] = dialect
+            yield c
             i += 1
 
 
-def build(ctx, case, lines):
+def _kw(case):
     kw = {"vlevel": case["vlevel"]}
     if case["explicit"]:
         kw["version"] = case["version"]
+    if case.get("dialect"):
+        kw["dialect"] = case["dialect"]
+    return kw
+
+
+def _line_kw(case, line):
+    rec = S.parse_line(line, case["version"])
+    kw = {"vlevel": case["vlevel"]}
+    if rec.rt not in "H#S" or len(rec.rt) > 1:
+        kw["version"] = case["version"]
+    if case.get("dialect"):
+        kw["dialect"] = case["dialect"]
+    return kw
+
+
+def build(ctx, case, lines):
+    kw = _kw(case)
     e = case["entry"]
+    if e == "lineobjs":
+        # the caller builds the line objects and hands them over
+        objs = []
+        for l in lines:
+            lr = call(ctx, "Line(str)", gfapy.Line, l, **_line_kw(case, l))
+            if not lr.ok:
+                return lr
+            objs.append(lr.value)
+        return call(ctx, "Gfa(list of Line)", gfapy.Gfa, objs, **kw)
+    if e == "addline":
+        def incremental():
+            g = gfapy.Gfa(**kw)
+            for i, l in enumerate(lines):
+                (g.add_line if i % 2 else g.append)(l)
+            g.process_line_queue()
+            if case["vlevel"] >= 1:
+                g.validate()
+            return g
+        return call(ctx, "Gfa();add_line*", incremental)
+    if e in ("readfile", "progress"):
+        fn = os.path.join(_tmp, "in.gfa")
+        with open(fn, "w", newline="") as f:
+            f.write("\n".join(lines) + ("\n" if len(lines) % 2 else ""))
+        def rd():
+            g = gfapy.Gfa(**kw)
+            if e == "progress":
+                import io
+                g.enable_progress_logging(part=0.3, channel=io.StringIO())
+            r = g.read_file(fn)
+            if r is not g:
+                raise HarnessNote("read_file does not return the receiver")
+            return g
+        return call(ctx, "Gfa().read_file(%s)" % e, rd)
     if e == "str":
         return call(ctx, "Gfa(str)", gfapy.Gfa, "\n".join(lines), **kw)
     if e == "strnl":
@@ -73,7 +136,7 @@ def build(ctx, case, lines):
 
 def written(ctx, case, g):
     """the text gfapy writes for g through the entry point's counterpart."""
-    if case["entry"] in ("lf", "crlf"):
+    if case["entry"] in ("lf", "crlf", "readfile", "progress"):
         fn = os.path.join(_tmp, "out.gfa")
         r = call(ctx, "Gfa.to_file", g.to_file, fn)
         if not r.ok:
@@ -101,7 +164,10 @@ def run(case, ctx):
             ctx.add("rt_x_dt", rt + "x" + d)
     for rt in rts:
         ctx.count("rt:" + rt)
-    cfg = "v%d/%s/%s" % (case["vlevel"], "explicit" if case["explicit"] else "auto", case["entry"])
+    cfg = "v%d/%s/%s%s" % (case["vlevel"], "explicit" if case["explicit"] else "auto", case["entry"],
+                           "/rgfa" if case.get("dialect") == "rgfa" else "")
+    if case.get("dialect") == "rgfa":
+        ctx.count("rgfa_documents")
     ctx.add("configs", cfg)
     if refbearing and len(dts) >= 3:
         ctx.nontriv([lines, cfg])
@@ -139,9 +205,7 @@ def run(case, ctx):
                       "%s\n missing: %r\n extra: %r" % (cfg, missing[:2], extra[:2]))
         return
     # fixed point: parse(write(parse(T))) writes the same text again
-    kw = {"vlevel": case["vlevel"]}
-    if case["explicit"]:
-        kw["version"] = version
+    kw = _kw(case)
     r2 = call(ctx, "Gfa(written)", gfapy.Gfa, "\n".join(wl), **kw)
     if not r2.ok:
         ctx.violation("written-text-refused/%s" % r2.cls(), "%s: %s" % (cfg, str(r2.exc)[:300]))
@@ -158,8 +222,7 @@ def run(case, ctx):
     # per-line round trip through gfapy.Line (version passed only where it is needed)
     for l in lines:
         rec = S.parse_line(l, version)
-        lv = version if (rec.rt not in "H#S" or len(rec.rt) > 1) else None
-        lr = call(ctx, "Line(str)", gfapy.Line, l, vlevel=case["vlevel"], **({"version": lv} if lv else {}))
+        lr = call(ctx, "Line(str)", gfapy.Line, l, **_line_kw(case, l))
         ctx.count("line_roundtrips")
         if not lr.ok:
             ctx.violation("valid-line-refused/%s/%s" % (rec.rt if len(rec.rt) == 1 else "custom", lr.cls()),
